@@ -626,7 +626,7 @@ class Interp(object):
         tp = type(v)
         it = getattr(tp, "__iter__", None)
         if isinstance(it, types.FunctionType) and self.should_interpret(it):
-            r = self.call_real_function(it, [v], {})
+            r = self.call(it, [v], {})
             return self.iterate(r)
         return iter(v)
 
@@ -891,7 +891,7 @@ class Interp(object):
             return NotImplemented
         f = getattr(type(a), name, None)
         if isinstance(f, types.FunctionType) and self.should_interpret(f):
-            return self.call_real_function(f, [a, b], {})
+            return self.call(f, [a, b], {})
         return NotImplemented
 
     def identical(self, a, b):
@@ -910,7 +910,7 @@ class Interp(object):
             return self.models.contains(container, item)
         f = getattr(type(container), "__contains__", None)
         if isinstance(f, types.FunctionType) and self.should_interpret(f):
-            return self.truth(self.call_real_function(f, [container, item], {}))
+            return self.truth(self.call(f, [container, item], {}))
         return item in container
 
     def e_Call(self, e, env):
@@ -1012,10 +1012,10 @@ class Interp(object):
         tp = type(v)
         f = getattr(tp, "__bool__", None)
         if isinstance(f, types.FunctionType) and self.should_interpret(f):
-            return self.truth(self.call_real_function(f, [v], {}), label)
+            return self.truth(self.call(f, [v], {}), label)
         f = getattr(tp, "__len__", None)
         if isinstance(f, types.FunctionType) and self.should_interpret(f):
-            n = self.len_value(self.call_real_function(f, [v], {}))
+            n = self.len_value(self.call(f, [v], {}))
             if isinstance(n, SInt):
                 return self.ctx.branch(n.e != 0, label)
             return n != 0
@@ -1075,7 +1075,7 @@ class Interp(object):
         tp = type(obj)
         f = _static_lookup(tp, "__getitem__")
         if isinstance(f, types.FunctionType) and self.should_interpret(f):
-            return self.call_real_function(f, [obj, idx], {})
+            return self.call(f, [obj, idx], {})
         if isinstance(obj, dict) and tp is not dict:
             # dict subclass with interpreted __missing__ (parser.Quoter)
             miss = _static_lookup(tp, "__missing__")
@@ -1089,7 +1089,7 @@ class Interp(object):
         tp = type(obj)
         f = _static_lookup(tp, "__setitem__")
         if isinstance(f, types.FunctionType) and self.should_interpret(f):
-            return self.call_real_function(f, [obj, idx, value], {})
+            return self.call(f, [obj, idx, value], {})
         self.ctx.writes.append((obj, idx))
         obj[idx] = value
 
